@@ -469,3 +469,146 @@ def scan_checker(rp):
     else:
         found = scan.shared_state_writes(tree)
     return bool(found), f"{rp['file']}: {found[:3]}"
+
+
+# ---------------------------------------------------------------- C20
+def _same(a, b):
+    return type(a) is type(b) and a == b
+
+
+@checker("c20_rating")
+def c20_rating(rp):
+    name = rp["model"]
+    m = mk_model(name, rp["params"])
+    mu, sg = num(rp["mu"]), num(rp["sigma"])
+    nm = rp.get("name")
+    r = m.rating(mu=mu, sigma=sg, name=nm)
+    want_mu = mu if mu is not None else m.mu
+    want_sg = sg if sg is not None else m.sigma
+    if rp.get("clause") == "canary":
+        want_mu = m.mu
+    r2 = m.rating(mu=mu, sigma=sg, name=nm)
+    bad = not (_same(r.mu, want_mu) and _same(r.sigma, want_sg) and r.name == nm
+               and isinstance(r.id, str) and r.id != r2.id)
+    return bad, f"{name}.rating(mu={mu!r}, sigma={sg!r}, name={nm!r}) -> mu={r.mu!r} sigma={r.sigma!r} name={r.name!r}; expected mu={want_mu!r} sigma={want_sg!r}"
+
+
+@searcher("c20_rating")
+def c20_rating_search(rp, seed):
+    for mu in (None, 0, 0.0, False, -3, 2.5):
+        for sg in (None, 0, 0.0, False, -1.5, 4):
+            for nm in (None, "", "bob"):
+                r2 = dict(rp, mu=None if mu is None else enc(mu), sigma=None if sg is None else enc(sg), name=nm)
+                bad, msg = c20_rating(r2)
+                if bad:
+                    return r2, msg
+    return None
+
+
+@checker("c20_create")
+def c20_create(rp):
+    name = rp["model"]
+    M = model_cls(name)
+    mu, sg = num(rp["mu"]), num(rp["sigma"])
+    nm = rp.get("name")
+    r = M.create_rating([mu, sg], name=nm) if nm is not None else M.create_rating([mu, sg])
+    want_name = nm if nm else None
+    want_mu = mu if rp.get("clause") != "canary" else sg
+    bad = not (_same(r.mu, want_mu) and _same(r.sigma, sg) and r.name == want_name and isinstance(r.id, str))
+    return bad, f"{name}.create_rating([{mu!r}, {sg!r}], name={nm!r}) -> mu={r.mu!r} sigma={r.sigma!r} name={r.name!r}"
+
+
+@searcher("c20_create")
+def c20_create_search(rp, seed):
+    for mu in (0, 0.0, False, -3, 2.5):
+        for sg in (0, 0.0, True, -1.5, 4):
+            for nm in (None, "bob"):
+                r2 = dict(rp, mu=enc(mu), sigma=enc(sg), name=nm)
+                try:
+                    bad, msg = c20_create(r2)
+                except Exception as e:  # noqa: BLE001
+                    return r2, f"raised {type(e).__name__}: {e}"
+                if bad:
+                    return r2, msg
+    return None
+
+
+@checker("c20_reject")
+def c20_reject(rp):
+    name = rp["model"]
+    M = model_cls(name)
+    arg = rp["arg"]
+    if arg["form"] == "tag":
+        x = foreign_object(arg["tag"], name) if arg["tag"] != "own-rating" else rating_cls(name)(1.0, 2.0)
+        if arg["tag"] == "list":
+            x = [1.0, 2.0, 3.0]
+        if arg["tag"] == "tuple":
+            x = (1.0, 2.0)
+    elif arg["form"] == "len":
+        x = [1.5] * int(arg["n"])
+    else:
+        x = [1.5, 2.5]
+        x[int(arg["pos"])] = foreign_object(arg["tag"], name)
+    try:
+        r = M.create_rating(x)
+    except (TypeError, ValueError) as e:
+        return (rp.get("clause") == "canary"), f"create_rating({x!r}) raised {type(e).__name__}"
+    except Exception as e:  # noqa: BLE001
+        return True, f"create_rating({x!r}) raised {type(e).__name__}"
+    return (rp.get("clause") != "canary"), f"create_rating({x!r}) returned {r!r}"
+
+
+@checker("c20_deepcopy")
+def c20_deepcopy(rp):
+    name = rp["model"]
+    R = rating_cls(name)
+    g = [[R(num(p[0]), num(p[1]), name=(f"n{i}{j}" if (i + j) % 2 else None)) for j, p in enumerate(t)] for i, t in enumerate(rp["game"])]
+    c = copy.deepcopy(g)
+    if rp.get("single"):
+        g = g[0][0]
+        c = copy.deepcopy(g)
+        pairs = [(g, c)]
+    else:
+        if c is g or len(c) != len(g) or any(x is y or len(x) != len(y) for x, y in zip(g, c)):
+            return True, "deepcopy of the team lists is not a distinct list of the same shape"
+        pairs = [(a, b) for x, y in zip(g, c) for a, b in zip(x, y)]
+    for a, b in pairs:
+        ok = (a is not b and type(a) is type(b) and _same(a.mu, b.mu) and _same(a.sigma, b.sigma) and a.name == b.name and a.id == b.id)
+        if rp.get("clause") == "canary":
+            ok = ok and a.id != b.id
+        if not ok:
+            return True, f"deepcopy: ({a.mu!r},{a.sigma!r},{a.name!r},{a.id}) -> ({b.mu!r},{b.sigma!r},{b.name!r},{b.id}) same-object={a is b}"
+    return False, "copies are distinct objects with equal mu, sigma, name, id"
+
+
+@checker("c20_chain")
+def c20_chain(rp):
+    """two games; between them the players are rebuilt from (mu, sigma)"""
+    name = rp["model"]
+    m1 = mk_model(name, rp["params"])
+    m2 = mk_model(name, rp["params"])
+    g = mk_game(name, rp["game"])
+    h = mk_game(name, rp["game"])
+    r1 = m1.rate(g)
+    r2 = m2.rate(h)
+    r2 = [[m2.rating(p.mu, p.sigma) for p in t] for t in r2]
+    if rp.get("clause") == "canary":
+        r2[0][0].sigma = r2[0][0].sigma * 2
+    a = _call_op(m1, rp["op"], r1)
+    b = _call_op(m2, rp["op"], r2)
+    return a != b, f"{name}: second game with original objects {str(a)[:70]} ; with rebuilt objects {str(b)[:70]}"
+
+
+@searcher("c20_chain")
+def c20_chain_search(rp, seed):
+    rnd = random.Random(seed)
+    for _ in range(100):
+        r2 = dict(rp, game=rand_game(rnd, [len(x) for x in rp["game"]]))
+        r2["params"] = dict(mu=enc(25.0), sigma=enc(25 / 3), beta=enc(25 / 6), kappa=enc(1e-4), tau=enc(25 / 300))
+        try:
+            bad, msg = c20_chain(r2)
+        except Exception:  # noqa: BLE001
+            continue
+        if bad:
+            return r2, msg
+    return None
